@@ -208,7 +208,13 @@ pub fn generate(rng: &mut Rng, mode: Mode, form: Form) -> Graph {
         None
     };
 
-    let cat_prelude = rng.chance(1, 2);
+    // rarely: one file includes the same header more than 200 times in a row
+    let repeat_in: Option<usize> = if rng.chance(1, 40) {
+        Some(rng.below(n as u64) as usize)
+    } else {
+        None
+    };
+    let cat_prelude = rng.chance(1, 2) || form == Form::Compile && rng.chance(1, 2);
     let mut fs = FsSpec::new(policy);
 
     for i in 0..n {
@@ -275,6 +281,10 @@ pub fn generate(rng: &mut Rng, mode: Mode, form: Form) -> Graph {
                 // uses of pool names with an argument list
                 if form == Form::Pre { 1 } else { 0 },
                 if form == Form::Pre { 2 } else { 0 },
+                // a line that starts with a pasted token
+                if form == Form::Pre { 1 } else { 0 },
+                // a declaration whose name is pasted together (compile form)
+                if form == Form::Compile { 1 } else { 0 },
             ];
             match weighted(rng, &w) {
                 0 => {
@@ -361,7 +371,18 @@ pub fn generate(rng: &mut Rng, mode: Mode, form: Form) -> Graph {
                     let r = rng.range(1, 9);
                     lines.push(format!("m_{i}_{counter} {m}({l},{r}) ;"));
                 }
-                _ => {
+                12 => {
+                    let l = ["u", "v", "w"][rng.below(3) as usize];
+                    lines.push(format!("CAT({l},{}) m_{i}_x ;", rng.range(1, 9)));
+                }
+                13 => {
+                    counter += 1;
+                    lines.push(format!(
+                        "static const int CAT(mk_{i}_,{counter}) = {} ;",
+                        rng.range(1, 9)
+                    ));
+                }
+                8 => {
                     counter += 1;
                     let r = if rng.chance(1, 2) {
                         ["u", "v", "w"][rng.below(3) as usize].to_string()
@@ -371,6 +392,15 @@ pub fn generate(rng: &mut Rng, mode: Mode, form: Form) -> Graph {
                     let l = ["u", "v", "w"][rng.below(3) as usize];
                     lines.push(format!("m_{i}_{counter} CAT({l},{r}) ;"));
                 }
+                _ => {}
+            }
+        }
+        if repeat_in == Some(i)
+            && let Some(t) = edges[i].first()
+        {
+            let sp = spell(rng, mode, &paths[i], &paths[*t]);
+            for _ in 0..rng.range(203, 230) {
+                lines.push(format!("#include \"{sp}\""));
             }
         }
         // includes scheduled past the last slot cannot exist; close what is open
